@@ -584,7 +584,11 @@ func checkResultOwned(fn *ssa.Function, ru *Rule) {
 			return
 		}
 		n++
-		for _, x := range valueRoots(retVal(ret, 0), through) {
+		var roots []Root
+		for _, d := range appendDests(retVal(ret, 0)) {
+			roots = append(roots, valueRoots(d, through)...)
+		}
+		for _, x := range roots {
 			switch x.Kind {
 			case "alloc", "const", "param":
 			case "other":
